@@ -35,7 +35,12 @@ func (u *UseCase) Set(ctx context.Context, key string, content io.Reader) error 
 		minSize uint64
 		closer  io.Closer
 	)
-	for dir, ok := range dirs.Iterate(u.randGen) {
+	// the random source is shared by all concurrent Sets and is not goroutine safe
+	u.randM.Lock()
+	dirsIter := dirs.Iterate(u.randGen)
+	u.randM.Unlock()
+
+	for dir, ok := range dirsIter {
 		if !ok {
 			return fs_db.ErrNoFreeSpace
 		}
